@@ -88,3 +88,10 @@ def deepcopy(eng, s, args, kwargs):
 def deepcopy_of(eng, st, new, old):
     n, o = eng.as_val(st, new), eng.as_val(st, old)
     return sv_bool(z3.And(is_ref(n.t), is_ref(o.t), DC(get_ref(n.t), get_ref(o.t))))
+
+
+@spec_function()
+def copied_from(eng, st, new, old):
+    """new was produced by copy.deepcopy(old): an isomorphic structure of new objects (X-COPY)"""
+    n, o = eng.as_val(st, new), eng.as_val(st, old)
+    return sv_bool(z3.And(is_ref(n.t), is_ref(o.t), DC(get_ref(n.t), get_ref(o.t))))
